@@ -428,12 +428,7 @@ def _handle_fn_body(body: list[ast.stmt], ctx: Context) -> sympy.Expr | None:
             msg = f"Statement type {type(node).__name__} not implemented"
             raise NotImplementedError(msg)
 
-    # If no return was found but we have assignments, return the last assigned variable
-    for node in reversed(body):
-        if isinstance(node, ast.Assign) and isinstance(node.targets[0], ast.Name):
-            target_name = node.targets[0].id
-            return ctx.symbols[target_name]
-
+    # Falling off the end returns None in Python: there is no value to translate
     msg = "No return value found in function body"
     raise ValueError(msg)
 
